@@ -19,7 +19,6 @@
 package commonmark
 
 import (
-	"bytes"
 	"fmt"
 	"html"
 	"io"
@@ -406,79 +405,24 @@ func (r *renderState) postInline(source []byte, inline *Inline) bool {
 // It cannot use a conventional HTML parser,
 // since raw HTML in Markdown may be incomplete or start in the middle of a tag.
 func (r *renderState) filterRaw(rawHTML []byte) {
-	const (
-		copyState = iota
-		commentState
-		piState
-		declState
-		cdataState
-	)
-	state := copyState
+	// Every '<' is examined on its own:
+	// an HTML tokenizer may be in a different state than any scanner here would guess
+	// (raw HTML can start or end in the middle of a comment or tag),
+	// so no '<' followed by a filtered name may be let through.
 	copyStart := 0
-	for i := 0; i < len(rawHTML); {
-		switch state {
-		case copyState:
-			if rawHTML[i] == '<' {
-				switch {
-				case hasBytePrefix(rawHTML[i:], cdataPrefix):
-					state = cdataState
-					i += len(cdataPrefix)
-				case hasBytePrefix(rawHTML[i:], htmlCommentPrefix):
-					state = commentState
-					i += len(htmlCommentPrefix)
-				case hasHTMLDeclarationPrefix(rawHTML[i:]):
-					state = declState
-					i += len("<!x")
-				default:
-					tagNameStart := i + 1
-					tagEnd := len(rawHTML)
-					if j := bytes.IndexByte(rawHTML[tagNameStart:], '>'); j >= 0 {
-						tagEnd = tagNameStart + j + len(">")
-					}
-					tagNameEnd := tagNameStart + htmlTagNameEnd(rawHTML[tagNameStart:tagEnd])
-					tagName := maybeLower(rawHTML[tagNameStart:tagNameEnd], &r.lowerBuf)
-					if r.FilterTag(tagName) {
-						r.dst = append(r.dst, rawHTML[copyStart:i]...)
-						r.dst = append(r.dst, "&lt;"...)
-						r.dst = append(r.dst, rawHTML[tagNameStart:tagEnd]...)
-						copyStart = tagEnd
-					}
-					i = tagEnd
-				}
-			} else {
-				i++
-			}
-		case commentState:
-			if hasBytePrefix(rawHTML[i:], htmlCommentSuffix) {
-				state = copyState
-				i += len(htmlCommentSuffix)
-			} else {
-				i++
-			}
-		case piState:
-			if hasBytePrefix(rawHTML[i:], processingInstructionSuffix) {
-				state = copyState
-				i += len(processingInstructionSuffix)
-			} else {
-				i++
-			}
-		case declState:
-			if rawHTML[i] == '>' {
-				state = copyState
-			}
-			i++
-		case cdataState:
-			if hasBytePrefix(rawHTML[i:], cdataSuffix) {
-				state = copyState
-				i += len(cdataSuffix)
-			} else {
-				i++
-			}
-		default:
-			panic("unreachable")
+	for i := 0; i < len(rawHTML); i++ {
+		if rawHTML[i] != '<' {
+			continue
+		}
+		tagNameStart := i + 1
+		tagNameEnd := tagNameStart + htmlTagNameEnd(rawHTML[tagNameStart:])
+		tagName := maybeLower(rawHTML[tagNameStart:tagNameEnd], &r.lowerBuf)
+		if r.FilterTag(tagName) {
+			r.dst = append(r.dst, rawHTML[copyStart:i]...)
+			r.dst = append(r.dst, "&lt;"...)
+			copyStart = i + 1
 		}
 	}
-
 	r.dst = append(r.dst, rawHTML[copyStart:]...)
 }
 
